@@ -125,7 +125,8 @@ def primitive(body, c):
     if field in LOCK_FIELDS:
         if meth == "swap" and op_int(c["args"][1]) == 1:
             return [(("bool", 0), {("+", ("lock", 0))}), (("bool", 1), set())]
-        if meth == "store" and op_int(c["args"][1]) == 0:
+        if meth in ("store", "swap") and op_int(c["args"][1]) == 0:
+            # `swap(false, o)` with the answer ignored is a release too (the previous value is `true` for the holder)
             return [(None, {("-", ("lock", 0))})]
         if meth in ("compare_exchange", "compare_exchange_weak") and op_int(c["args"][1]) == 0 and op_int(c["args"][2]) == 1:
             return [(("variant", 0), {("+", ("lock", 0))}), (("variant", 1), set())]
@@ -171,8 +172,8 @@ def selfcheck(fx):
         if not ok: probs.append("spin.acquire: ogre_sync::lock is not a CAS false->true")
     b = need(SPIN_UNLOCK)
     if b:
-        st = [c for (_, c) in b.calls if c.get("f") == ATOMIC + "store"]
-        if not (len(st) == 1 and op_int(st[0]["args"][1]) == 0): probs.append("spin.release: ogre_sync::unlock is not store(false)")
+        st = [c for (_, c) in b.calls if c.get("f") in (ATOMIC + "store", ATOMIC + "swap")]
+        if not (len(st) == 1 and op_int(st[0]["args"][1]) == 0): probs.append("spin.release: ogre_sync::unlock is not store(false) / swap(false)")
     for adt, fields in ((AM, list(RING_COUNTERS)), (FSM, ["head", "tail", "concurrency_guard", "buffer"]),
                         (SM, ["vacant_streams", "used_streams", "used_streams_count", "streams_lock", "wakers_lock", "wakers", "keep_streams_running"]),
                         (INNER_ARC, ["allocator", "data_id", "references_count"])):
